@@ -33,6 +33,7 @@ package sctp
 //   sa rst  -> <sid>:<readErr>:<deadline armed>:<readable>:<reassembly state as `reasm`, '/'-joined> …  (after read-side ops and ticks)
 
 import (
+	"bytes"
 	"errors"
 	"fmt"
 	"io"
@@ -51,11 +52,13 @@ type vSapiRecPolicy struct {
 	inner  pendingQueuePolicy
 	shadow []*chunkPayloadData
 	popped []uint32
+	all    []*chunkPayloadData // every chunk ever pushed, in push order
 }
 
 func (p *vSapiRecPolicy) push(c *chunkPayloadData) {
 	p.inner.push(c)
 	p.shadow = append(p.shadow, c)
+	p.all = append(p.all, c)
 }
 
 func (p *vSapiRecPolicy) peek() *chunkPayloadData { return p.inner.peek() }
@@ -401,6 +404,7 @@ func (h *vSapi) exec(op []string) {
 			}
 		}
 		p := vPayload(uint64(u(3))*31+uint64(sid), int(u(3)))
+		mark := len(h.rec.all)
 		w := &vSapiCall{id: h.nextWid, sid: sid, done: make(chan struct{})}
 		go func() {
 			w.n, w.err = s.WriteSCTP(p, PayloadProtocolIdentifier(u(4)))
@@ -411,6 +415,19 @@ func (h *vSapi) exec(op []string) {
 		case <-w.done:
 			res(fmt.Sprintf("%d %s", w.n, vErrClass(w.err)))
 			h.l.stat("sa.write." + vSapiStatClass(vErrClass(w.err)))
+			if w.err == nil && w.n > 0 {
+				// the chunks this write queued carry, in order, exactly the bytes of the buffer (the models carry lengths and
+				// identities only; this is the byte-copy of packetize)
+				var got []byte
+				for _, c := range h.rec.all[mark:] {
+					got = append(got, c.userData...)
+				}
+				verdict := "ok"
+				if !bytes.Equal(got, p) {
+					verdict = fmt.Sprintf("BAD %d_chunks_%d_bytes_for_%d", len(h.rec.all)-mark, len(got), len(p))
+				}
+				h.l.line(fmt.Sprintf("sa bytes %d", sid), verdict)
+			}
 		default:
 			h.nextWid++
 			h.writers = append(h.writers, w)
